@@ -18,6 +18,8 @@ use crate::Node;
 
 #[path = "kf.rs"]
 mod kf;
+#[path = "mode.rs"]
+mod mode;
 
 fn fmt_stub(_args: std::fmt::Arguments<'_>) -> String {
     String::new()
@@ -375,6 +377,35 @@ fn empty_schema() -> crate::Schema {
     }
 }
 
+/// Native replay has no stubs: the real `Schema::is_subtype` runs.  So when a counterexample is replayed the
+/// subtype table chosen by the solver is realised as a REAL schema (three interfaces, `Y implements X` for every
+/// true entry [X][Y]); under Kani this branch is dead code (`mode::PLAYBACK` is a false constant there).
+fn schema_for_table() -> crate::Schema {
+    if mode::PLAYBACK {
+        let names = ["A", "B", "C"];
+        let mut sdl = String::new();
+        for y in 0..3 {
+            sdl.push_str("interface ");
+            sdl.push_str(names[y]);
+            let mut first = true;
+            for x in 0..3 {
+                if unsafe { SUBTYPE[x][y] } {
+                    sdl.push_str(if first { " implements " } else { " & " });
+                    sdl.push_str(names[x]);
+                    first = false;
+                }
+            }
+            sdl.push_str(" { f: Int }\n");
+        }
+        match crate::Schema::parse(sdl, "replay.graphql") {
+            Ok(s) => s,
+            Err(e) => e.partial,
+        }
+    } else {
+        empty_schema()
+    }
+}
+
 fn impl_case(depth: u32, pool: u8) {
     for a in 0..3 {
         for b in 0..3 {
@@ -383,7 +414,7 @@ fn impl_case(depth: u32, pool: u8) {
     }
     let iface = any_type(depth, pool);
     let imp = any_type(depth, pool);
-    let schema = empty_schema();
+    let schema = schema_for_table();
     // code: (schema, interface_field_type, impl_field_type); spec: (fieldType = impl, implementedFieldType = iface)
     let got = crate::validation::interface::is_valid_implementation_field_type(&schema, &iface, &imp);
     let want = spec_impl(&imp, &iface);
